@@ -123,7 +123,9 @@ def tickRound (rounds round : Nat) : Nat := (round + 1) % rounds
 /-- The peers `new_optimistic_peers` draws from: choked by us and interested. -/
 def optCandidates (s : CState) : List Nat := (s.filter fun p => p.amChoked && p.interested).map (·.addr)
 
-/-- The rate the peers are ordered by: what they gave us while we still download, what they took once we seed. -/
+/-- The rate the peers are ordered by, as the code has it: `uploaded_rate` (bytes we sent to the peer) while some piece
+    is not owned, `download_rate` (bytes received from it) once all are. (BEP 3's tit-for-tat reads the other way
+    round; the property speaks of "measured rate" only, so this is recorded in DESIGN.md as an observation.) -/
 def tickRate (seeder : Bool) (r : Rates) (a : Nat) : Nat := (if seeder then (r a).1 else (r a).2).getD 0
 
 /-- `timeout_change_conn_state`. `sorted` is the peer list in the order of the sorted rate vector and `pick` the
